@@ -68,6 +68,7 @@ func wrapAll(fs []gfam.LeafFn) []gfam.LeafFn {
 			func() *g.Node { return g.Look(f(), '=') },
 			func() *g.Node { return g.Look(f(), '!') },
 			func() *g.Node { return g.Grp(f(), 0) },
+			func() *g.Node { return g.Grp(g.Grp(f(), '?'), '!') }, // nullable body, but the group must match something
 		)
 	}
 	return out
@@ -129,7 +130,8 @@ func c08grammars(quick bool) []func() *recGrammar {
 	})
 	// two productions: P0 from a term set, P1 from a fixed menu
 	mk("rec2", 2, func(b *builder) []gfam.LeafFn {
-		leaves := []gfam.LeafFn{lit("x"), b.sub(0), b.sub(1), func() *g.Node { return g.Grp(g.Lit("x"), '?') }, func() *g.Node { return g.Grp(b.sub(1)(), '?') }, func() *g.Node { return g.Look(b.sub(1)(), '=') }, func() *g.Node { return g.Look(g.Lit("y"), '!') }}
+		leaves := []gfam.LeafFn{lit("x"), b.sub(0), b.sub(1), func() *g.Node { return g.Grp(g.Lit("x"), '?') }, func() *g.Node { return g.Grp(b.sub(1)(), '?') }, func() *g.Node { return g.Look(b.sub(1)(), '=') }, func() *g.Node { return g.Look(g.Lit("y"), '!') },
+			func() *g.Node { return g.Grp(g.Seq(g.Grp(g.Lit("x"), '?'), g.Grp(g.Lit("y"), '?')), '!') }}
 		var ts []gfam.LeafFn
 		ts = append(ts, gfam.Terms(1, leaves)...)
 		ts = append(ts, gfam.Terms(2, leaves)...)
@@ -335,7 +337,7 @@ func planC08(c *hx.Ctx) *hx.Plan {
 		N:        len(gs),
 		Job:      func(w *hx.Worker, i int) { runC08(w, gs[i], "") },
 		Describe: func(i int) string { return c08key(gs[i]()) },
-		Rule:     "1-3 mutually referring productions (each a union with one struct member, so reflect.StructOf can build the recursion); bodies are all terms of up to 2 leaves (3 on a reduced leaf set) over {\"x\", @@P0, @@P1, @@P2} with every modifier, plain groups, (?= ), (?! ) and ~ on the leaves, crossed with menus of bodies for the other productions. An independent decision procedure (nullability fixpoint + left-edge call graph + cycle test) gives the expected verdict; every grammar Build accepts is parsed on every input up to length 4 over {x,y,z,space} (Space is elided) under a recursion-depth guard (Trace writer) as dynamic cross-validation. evaluations = grammars",
+		Rule:     "1-3 mutually referring productions (each a union with one struct member, so reflect.StructOf can build the recursion); bodies are all terms of up to 2 leaves (3 on a reduced leaf set) over {\"x\", @@P0, @@P1, @@P2} with every modifier (incl. non-empty groups `( e? )!` whose body is nullable), plain groups, (?= ), (?! ) and ~ on the leaves, crossed with menus of bodies for the other productions. An independent decision procedure (nullability fixpoint + left-edge call graph + cycle test) gives the expected verdict; every grammar Build accepts is parsed on every input up to length 4 over {x,y,z,space} (Space is elided) under a recursion-depth guard (Trace writer) as dynamic cross-validation. evaluations = grammars",
 		Bounds:   map[string]any{"inputs_per_accepted_grammar": len(c08inputs), "depth_limit": "40*(len(input)+2) trace levels"},
 		Assume:   []string{"an accepted left-recursive grammar is reported only with a concrete input on which the parser recurses without bound; without one it is listed as unconfirmed", "over-rejection rests on the decision procedure alone"},
 	}
